@@ -11,30 +11,29 @@ import (
 	"github.com/anjor/carlet"
 )
 
-// C16.many — more pieces than the fan-out limit of NewSplitCarReader (errgroup.SetLimit(10)) and
-// two-digit piece numbers: N local piece files named piece-1 … piece-N (no zero padding, like
+// C16.many — more pieces than the fan-out limit of NewSplitCarReader (errgroup.SetLimit, rewritten
+// 10 -> 2 in the overlay so that 3..4 pieces exceed it) and piece numbers that cross a decimal digit
+// boundary: local piece files named piece-9, piece-10, piece-11, … (no zero padding, like
 // split-car's epoch-E-N.car), each 1 own header byte + 1..2 content bytes. The reader must
-// concatenate them in metadata order (not in name order, not in completion order): one read of
-// the whole stream and one read across the boundary between pieces 9, 10 and 11.
+// concatenate them in metadata order (not in name order, not in completion order) under every
+// interleaving of the creators: one read of the whole stream and one read across all boundaries.
 func VerifC16Many() {
-	N := verifParam("pieces", 11)
+	N := verifParam("pieces", 3)
 	header := []byte{0xA1, 0xA2, 0xA3}
 	whole := append([]byte{3}, header...)
 	meta := &carlet.CarPiecesAndMetadata{
 		OriginalCarHeader:     base64.StdEncoding.EncodeToString(header),
 		OriginalCarHeaderSize: 4,
 	}
-	starts := make([]int, N+1)
+	first := len(whole)
 	for k := 0; k < N; k++ {
 		cs := 1 + k%2
-		file := verifBytes(fmt.Sprintf("file%d", k+1), 1+cs)
-		name := verifTempPath(fmt.Sprintf("piece-%d.car", k+1))
+		file := verifBytes(fmt.Sprintf("file%d", 9+k), 1+cs)
+		name := verifTempPath(fmt.Sprintf("piece-%d.car", 9+k))
 		verifMemFile(name, file)
 		meta.CarPieces = append(meta.CarPieces, carlet.CarFile{Name: name, HeaderSize: 1, ContentSize: uint64(cs)})
-		starts[k] = len(whole)
 		whole = append(whole, file[1:]...)
 	}
-	starts[N] = len(whole)
 	scr, err := NewSplitCarReader(meta, func(cf carlet.CarFile) (ReaderAtCloserSize, error) {
 		return NewFileSplitCarReader(cf.Name)
 	})
@@ -46,12 +45,9 @@ func VerifC16Many() {
 	n, rerr := scr.ReadAt(p, 0)
 	verifAssert(n == len(whole) && rerr == io.EOF, "C16.many: whole read ends at the wrong offset")
 	verifAssert(n == len(whole) && bytes.Equal(p[:n], whole), "C16.many: pieces are not concatenated in metadata order")
-	if N >= 11 {
-		lo, hi := starts[8]+1, starts[11]
-		q := make([]byte, hi-lo)
-		n, rerr = scr.ReadAt(q, int64(lo))
-		verifAssert(n == len(q) && rerr == nil && bytes.Equal(q, whole[lo:hi]), "C16.many: read across pieces 9, 10, 11 differs from the concatenation")
-	}
+	q := make([]byte, len(whole)-first-1)
+	n, rerr = scr.ReadAt(q, int64(first))
+	verifAssert(n == len(q) && rerr == nil && bytes.Equal(q, whole[first:len(whole)-1]), "C16.many: read across all piece boundaries differs from the concatenation")
 	verifAssert(scr.Close() == nil, "C16.many: Close failed")
 	verifReach("end")
 }
